@@ -105,6 +105,9 @@ func CheckTokenGame(pfx string, prog *Program, hist []simlog.Ev) *TokenGameResul
 			if e := m.Answer(ev.A, r, objs); e != "" {
 				vl.add(pfx+"/harness", "step %d: %s", ev.Step, e)
 			}
+		case "ev":
+			// an event handed to the instance at a moment when the engine was quiescent
+			m.Deliver(ev.A, ev.B)
 		case "ans-err", "ans-skip":
 			taskErrWant[ev.A]++
 			if e := m.Answer(ev.A, nil, nil); e != "" {
